@@ -288,7 +288,20 @@ def _run_meas(item):
                 conn.link = rig.AutoLink(conn.ex, conn.stack, bell=[c["bell"]], outcomes=[rawr])
                 conn.link.remote.append(dict(remote=1, purpose=0, type="M", n=1))
                 res = sock.recv_measure(1, expect_phi_plus=c["expect"])
-                conn.flush()
+                if c["api"] == "precompiled-rerun":
+                    # the documented way to run one compiled subroutine several times: an earlier run delivered ANOTHER
+                    # Bell state (and its results were read); the run that is judged is the second
+                    sub = conn.compile()
+                    sub.instantiate(conn.app_id)
+                    link2 = conn.link
+                    conn.link = rig.AutoLink(conn.ex, conn.stack, bell=[(c["bell"] + 1 + rawc + 2 * rawr) % 4], outcomes=[1 - rawr])
+                    conn.link.remote.append(dict(remote=1, purpose=0, type="M", n=1))
+                    conn.commit_subroutine(sub)
+                    _ = (res[0].measurement_outcome, res[0].bell_state, res[0].raw_measurement_outcome)
+                    conn.link = link2
+                    conn.commit_subroutine(sub)
+                else:
+                    conn.flush()
                 r0 = res[0]
                 if c["api"] == "result-object":
                     # the result object as the SDK builds it when the request carries the bases
@@ -303,7 +316,7 @@ def _run_meas(item):
 
 def meas_cases() -> List[Dict[str, Any]]:
     out = []
-    for api in ("recv_measure", "result-object"):
+    for api in ("recv_measure", "result-object", "precompiled-rerun"):
         for bell in range(4):
             for basis in BASES:
                 for expect in (True, False):
@@ -351,7 +364,13 @@ def run(prop: str, tier: str) -> int:
         for rid, v in bad.items():
             r = rows[rid - 1]
             if r["kind"] == "meas":
-                w = {"api": r["api"], "bell": r["bell"], "basis": r["basis"], "expect": r["expect"]}
+                api = r["api"]
+                if api == "precompiled-rerun" and any(rows[o - 1]["kind"] == "meas" and rows[o - 1]["api"] == "recv_measure" and v2[1] == v[1] and
+                                                      all(rows[o - 1][f] == r[f] for f in ("bell", "basis", "expect")) for o, v2 in bad.items()):
+                    # a single run of recv_measure fails in the same way for this Bell state and basis: the same failure
+                    # (same witness), not one of running the compiled subroutine again
+                    api = "recv_measure"
+                w = {"api": api, "bell": r["bell"], "basis": r["basis"], "expect": r["expect"]}
                 V.add(v[1], w, f"{r['api']}: Bell state {r['bell']} measured in {r['basis']} on both nodes, expect_phi_plus={r['expect']}: "
                       f"raw -> post-processed (creator, receiver) {[((x['rawc'], x['rawr']), (x['outc'], x['outr'])) for x in r['rows']]} {r['err']}: {v[1]}", r)
                 continue
